@@ -42,11 +42,19 @@ func (e *Expr) String() string {
 	case "extract":
 		s = e.Args[0].String() + "#" + e.Name
 	case "phi":
-		s = "phi{" + joinExprs(e.Args, " | ") + "}"
+		if e.Name == "μ" {
+			s = "μ{" + joinExprs(e.Args, " | ") + "}"
+		} else {
+			s = "phi{" + joinExprs(e.Args, " | ") + "}"
+		}
 	case "cell":
 		s = "cell<" + joinExprs(e.Args, " | ") + ">"
 	case "lit":
-		s = e.Name + "{" + joinExprs(e.Args, ", ") + "}"
+		if len(e.Args) > 12 {
+			s = fmt.Sprintf("%s{…%d fields}", e.Name, len(e.Args))
+		} else {
+			s = e.Name + "{" + joinExprs(e.Args, ", ") + "}"
+		}
 	case "kv":
 		s = e.Name + ": " + e.Args[0].String()
 	case "index":
@@ -207,6 +215,13 @@ func (x *Exprer) compute(v ssa.Value) *Expr {
 		st := derefStruct(v.X.Type())
 		return mk("field", st.Field(v.Field).Name(), v, x.E(v.X))
 	case *ssa.Field:
+		if ld, ok := v.X.(*ssa.UnOp); ok && ld.Op == token.MUL {
+			if al, ok := ld.X.(*ssa.Alloc); ok {
+				if e := x.fieldOfAlloc(al, v.Field); e != nil {
+					return e
+				}
+			}
+		}
 		st := derefStruct(v.X.Type())
 		return mk("field", st.Field(v.Field).Name(), v, x.E(v.X))
 	case *ssa.IndexAddr:
@@ -218,6 +233,13 @@ func (x *Exprer) compute(v ssa.Value) *Expr {
 	case *ssa.UnOp:
 		switch v.Op {
 		case token.MUL: // load
+			if fa, ok := v.X.(*ssa.FieldAddr); ok {
+				if al, ok := fa.X.(*ssa.Alloc); ok {
+					if e := x.fieldOfAlloc(al, fa.Field); e != nil {
+						return e
+					}
+				}
+			}
 			return x.E(v.X)
 		case token.NOT:
 			return negate(x.E(v.X))
@@ -248,12 +270,14 @@ func (x *Exprer) compute(v ssa.Value) *Expr {
 		return x.callExpr(&v.Call, v)
 	case *ssa.Phi:
 		seen := map[string]*Expr{}
+		loop := false
 		for _, e := range v.Edges {
 			ee := x.E(e)
-			if ee.Op == "self" {
+			if ee.Contains(func(s *Expr) bool { return s.Op == "self" }) {
+				loop = true // loop-carried edge
 				continue
 			}
-			if ee.Op == "phi" { // flatten
+			if ee.Op == "phi" && ee.Name == "" { // flatten
 				for _, a := range ee.Args {
 					seen[a.String()] = a
 				}
@@ -261,14 +285,9 @@ func (x *Exprer) compute(v ssa.Value) *Expr {
 			}
 			seen[ee.String()] = ee
 		}
-		keys := make([]string, 0, len(seen))
-		for k := range seen {
-			keys = append(keys, k)
-		}
-		sort.Strings(keys)
-		args := make([]*Expr, len(keys))
-		for i, k := range keys {
-			args[i] = seen[k]
+		args := sortedExprs(seen)
+		if loop {
+			return mk("phi", "μ", v, args...)
 		}
 		if len(args) == 1 {
 			return args[0]
@@ -385,6 +404,48 @@ func ifaceName(t types.Type) string {
 		return pk + "." + nt.Obj().Name()
 	}
 	return typeStr(t)
+}
+
+// fieldOfAlloc projects a field out of a local struct cell that is only ever populated by field stores
+// (composite literal / field assignments): the single value stored to that field, if unambiguous.
+func (x *Exprer) fieldOfAlloc(a *ssa.Alloc, field int) *Expr {
+	refs := a.Referrers()
+	if refs == nil {
+		return nil
+	}
+	var vals []ssa.Value
+	for _, r := range *refs {
+		switch r := r.(type) {
+		case *ssa.Store:
+			if r.Addr == a {
+				return nil // whole-value store: not a pure literal cell
+			}
+		case *ssa.FieldAddr:
+			if r.Field != field {
+				continue
+			}
+			if rr := r.Referrers(); rr != nil {
+				for _, u := range *rr {
+					if st, ok := u.(*ssa.Store); ok && st.Addr == r {
+						vals = append(vals, st.Val)
+					}
+				}
+			}
+		}
+	}
+	if len(vals) == 0 {
+		return nil
+	}
+	set := map[string]*Expr{}
+	for _, v := range vals {
+		e := x.E(v)
+		set[e.String()] = e
+	}
+	es := sortedExprs(set)
+	if len(es) == 1 {
+		return es[0]
+	}
+	return mk("phi", "", nil, es...)
 }
 
 // cell canonicalises an Alloc.
